@@ -13,6 +13,7 @@ from __future__ import annotations
 import itertools
 import json
 import math
+import random
 
 from harness import common as C
 from harness.props import c08_tok
@@ -137,11 +138,29 @@ def path_roundtrip_ok(comps):
 
 
 def run(ctx: C.Ctx):
+    # the end-to-end part draws from its own stream (seeded from ctx.rng first), so that a replay of one of its
+    # index-addressed cases (ctx.only) can skip the string-level part without changing what it generates
+    e2e_rng = random.Random(ctx.rng.getrandbits(64))
+    if ctx.only is None:
+        _run_strings(ctx)
+    try:
+        from harness.props import c08_e2e
+    except ImportError:
+        c08_e2e = None
+    if c08_e2e is not None:
+        c08_e2e.run(ctx, e2e_rng)
+
+
+def _run_strings(ctx: C.Ctx):
     rng = ctx.rng
     ctx.rule = ('string level: every string over the 12-symbol alphabet up to length L (exhaustive) plus random '
                 'longer ASCII strings, through to_snake/lisp/camel/pascal_case, normalize, possible_json_keys and '
                 'split_object_path, model vs implementation; canonical snake names x 7 casings; random path component '
-                'lists rendered in bracket syntax. Non-trivial = distinct (function, input) whose output differs from the input.')
+                'lists rendered in bracket syntax; token-grammar paths of 1..8 components (bare words incl. true/false/null '
+                'in every casing, ints, floats, quoted strings with both quote characters / dots / brackets / escapes, '
+                'bracketed forms, junk pieces, every third path with a quoted component followed by bare bool / int '
+                'components) against the model and, when every token is well formed, against the denotation of the grammar. '
+                'Non-trivial = distinct (function, input) whose output differs from the input.')
     L = ctx.quick(4, 5)
     reqs, meta = [], []
 
@@ -255,13 +274,6 @@ def run(ctx: C.Ctx):
                     continue
             ctx.fail('oracle:tokpath', dict(components=[_comp(c) for c in expected], text=text, tags=tags),
                      f'split_object_path({text!r}) = {got!r}, the syntax denotes {expected!r}', key=key)
-
-    try:
-        from harness.props import c08_e2e
-    except ImportError:
-        c08_e2e = None
-    if c08_e2e is not None:
-        c08_e2e.run(ctx)
 
 
 def _tokpath_key(text, got, expected):
